@@ -6,6 +6,7 @@ import (
 	"os"
 	"path/filepath"
 	"strings"
+	"sync"
 	"testing"
 	"time"
 
@@ -233,10 +234,43 @@ func sameRun(a, b *Outcome) string {
 	return ""
 }
 
+// stallState is what the watchdog needs to turn a CPU loop inside the compiler into a
+// reported violation: the workload being executed and the partial gathered so far.
+var stallState struct {
+	mu   sync.Mutex
+	w    *Workload
+	seed uint64
+	part *core.Partial
+	cfg  core.Cfg
+}
+
+func onStall(stacks string) bool {
+	stuck, frames := core.StuckInSUT(stacks)
+	if !stuck {
+		return false
+	}
+	stallState.mu.Lock()
+	defer stallState.mu.Unlock()
+	if stallState.w == nil || stallState.part == nil {
+		return false
+	}
+	c := stallState.cfg
+	v := Violation{Class: "hang", Detail: "the compile keeps a CPU busy without reaching any seam (retry loop?) after the scheduler stopped releasing events: " + core.Trunc(frames, 900)}
+	p := writeReplay(c, found{v: v, w: stallState.w, o: &Outcome{}}, c.Property == "C06", stallState.seed)
+	part := stallState.part
+	part.Violations = append(part.Violations, core.ViolationRec{Class: v.Class, Detail: v.Detail, Replay: p, Seed: stallState.seed})
+	_ = core.WriteJSON(c.PartPath(c.Worker), part)
+	os.Exit(0)
+	return true
+}
+
 func worker(t *testing.T, c core.Cfg) {
 	start := time.Now()
 	faulty := c.Property == "C06"
 	part := &core.Partial{Worker: c.Worker, Counters: core.Counters{}}
+	stallState.mu.Lock()
+	stallState.part, stallState.cfg = part, c
+	stallState.mu.Unlock()
 	nw := int(core.EnvInt("VERIF_WORKERS", 1))
 	deadline := start.Add(time.Duration(c.BudgetS * float64(time.Second)))
 	schedPerGraph := 8
@@ -262,6 +296,9 @@ func worker(t *testing.T, c core.Cfg) {
 		}
 		var digest []string
 		for _, w := range ws {
+			stallState.mu.Lock()
+			stallState.w, stallState.seed = w, gseed
+			stallState.mu.Unlock()
 			e := Model(w)
 			part.Cases++
 			part.Counters.Inc("family_" + w.Family)
@@ -587,7 +624,7 @@ func TestEngine(t *testing.T) {
 	}
 	if c.Worker >= 0 {
 		core.QuietStderr()
-		core.StartWatchdog(120*time.Second, nil)
+		core.StartWatchdog(40*time.Second, onStall)
 		worker(t, c)
 		return
 	}
